@@ -96,6 +96,7 @@ func (a *rcStats) add(b rcStats) {
 	a.pendingGrow += b.pendingGrow
 	a.carry += b.carry
 	a.carryPending += b.carryPending
+	a.carryPending2 += b.carryPending2
 	if b.maxPendingRun > a.maxPendingRun {
 		a.maxPendingRun = b.maxPendingRun
 	}
@@ -370,6 +371,7 @@ func (a *rtStats) publish(r *ev.Run, label string) {
 	r.Add(pre+"lzma_pending_FF_held_back", a.rc.pendingGrow)
 	r.Add(pre+"lzma_carries", a.rc.carry)
 	r.Add(pre+"lzma_carries_through_pending_FF", a.rc.carryPending)
+	r.Add(pre+"lzma_carries_through_2_or_more_pending_FF", a.rc.carryPending2)
 	r.Add(pre+"lzma_payloads_with_carry_through_pending_FF", a.lzPayloadsWithCarryPending)
 	r.Add(pre+"lzma_max_pending_FF_run", a.rc.maxPendingRun)
 	r.Add(pre+"xz_chunks_raw", a.xzRaw)
